@@ -89,6 +89,23 @@ proofs! {
     core::mem::forget(z);
 }
 
+// route independence: the same logical value reached along different routes is ==, hashes equally,
+// compares Equal (breaks if "no variants" gains a second representation)
+[sortv, boxed, tovec] fn c12_routes_no_variants() {
+    let (x, _m) = sym::any_langid(2);
+    let untouched = LanguageIdentifier::from_raw_parts_unchecked(x.language, x.script, x.region, None);
+    let mut set_empty = x.clone();
+    set_empty.set_variants(&[]);
+    let mut cleared = x.clone();
+    cleared.clear_variants();
+    let parts_empty = LanguageIdentifier::from_parts(x.language, x.script, x.region, &[]);
+    cover!(x.variants().len() == 2);
+    assert!(set_empty == untouched && cleared == untouched && parts_empty == untouched, "one representation of 'no variants' on every route");
+    assert!(fnv(&set_empty) == fnv(&untouched) && fnv(&cleared) == fnv(&untouched) && fnv(&parts_empty) == fnv(&untouched), "equal values hash equally");
+    assert!(set_empty.cmp(&untouched) == Ordering::Equal && cleared.cmp(&untouched) == Ordering::Equal && parts_empty.cmp(&untouched) == Ordering::Equal);
+    core::mem::forget((x, untouched, set_empty, cleared, parts_empty));
+}
+
 // x == y  <=>  x.to_string() == y.to_string()   (real Display + core::fmt on both sides)
 [string] fn c12_langid_eq_iff_string_eq() {
     let (x, mx) = sym::any_langid(1);
